@@ -8,26 +8,6 @@ open Ckl
 
 variable {E : List String} {b : Bool} {ld ld' : Loader} {fuel : Nat}
 
-/-- `for`: on an error the loop variables are removed -/
-theorem PresA.wrapErrR {m m' : EvalM RVal} (hm : PresA E b m m') (g : State → State)
-    (hg : ∀ s, Inv E b s → Inv E b (g s)) :
-    PresA E b
-      (fun s1 => match m s1 with
-        | .err v msg p t s2 => .err v msg p t (g s2)
-        | other => other)
-      (fun s1 => match m' s1 with
-        | .err v msg p t s2 => .err v msg p t (g s2)
-        | other => other) := by
-  refine ⟨fun s1 hs1 => ?_⟩
-  obtain ⟨he, hp⟩ := hm.run s1 hs1
-  rw [← he]
-  refine ⟨rfl, ?_⟩
-  revert hp
-  cases m s1 with
-  | ok a s2 => exact id
-  | err v msg p t s2 => exact fun h => ⟨hg _ h.1, h.2⟩
-  | fail f s2 => exact id
-
 /-- the finally stage of a block, after the outcome `k` of body and handlers is known -/
 theorem fin_stage {fin fin' : EvalM Unit} {s1 : State} (hF : fin s1 = fin' s1 ∧ Post E b (fin s1))
     (k : State → Out RVal) (hk : ∀ s, Inv E b s → Post E b (k s)) :
@@ -415,12 +395,43 @@ theorem step_eval_ident (hA : LdAgree ld ld') (env : EnvId) (name : String) (pos
     PresA E b (eval ld (fuel+1) env (.ident name pos)) (eval ld' (fuel+1) env (.ident name pos)) := by
   simp only [Ckl.eval, hA.baseNames]; pa_auto
 
+/-- the bindings a `for` loop hides are read from a frame of the START state: clean by its invariant -/
+theorem cl_hiddenVars {s : State} (h : Inv E b s) (env : EnvId) (ids : List String) :
+    Cl.cl E (hiddenVars s env ids) := by
+  rw [cl_list_iff]
+  intro p hp
+  unfold hiddenVars at hp
+  obtain ⟨x, _, hx⟩ := List.mem_filterMap.mp hp
+  cases hd : dictGet x (s.frame env).vars with
+  | none => rw [hd] at hx; cases hx
+  | some v =>
+    rw [hd] at hx
+    cases hx
+    exact ⟨trivial, cl_of_dictGet hd (h.frames env)⟩
+
+/-- putting clean hidden bindings back keeps the invariant -/
+theorem Inv.restoreVars {s : State} (h : Inv E b s) (env : EnvId) {hidden : List (String × RVal)}
+    (hh : Cl.cl E hidden) : Inv E b (restoreVars env hidden s) := by
+  unfold Ckl.restoreVars
+  exact Inv.foldl (fun s p hp hs => hs.put env p.1 (cl_of_mem hp hh).2) h
+
+/-- `for`: when the loop ends the hidden bindings are put back; on an error the loop variables are
+    removed first.  Both loaders start from the same state, hence restore the same bindings. -/
 theorem step_eval_for (ih : AllP E b ld ld' fuel) (env : EnvId) (ids : List String) (e body : Node) (what : String)
     (pos : Pos) :
     PresA E b (eval ld (fuel+1) env (.for ids e body what pos)) (eval ld' (fuel+1) env (.for ids e body what pos)) := by
   simp only [Ckl.eval]
-  exact PresA.wrapErrR (ih.evalFor _ _ _ _ _ _) _
-    (fun s hs => Inv.foldl (fun s x _ h => h.remove env x) hs)
+  refine ⟨fun s hs => ?_⟩
+  obtain ⟨he, hp⟩ := (ih.evalFor env ids e body what pos).run s hs
+  have hh := cl_hiddenVars hs env ids
+  rw [← he]
+  refine ⟨rfl, ?_⟩
+  revert hp
+  cases evalFor ld fuel env ids e body what pos s with
+  | ok v s' => exact fun h => ⟨h.1.restoreVars env hh, h.2⟩
+  | err v m p t s' =>
+    exact fun h => ⟨(Inv.foldl (fun s x _ h => h.remove env x) h.1).restoreVars env hh, h.2⟩
+  | fail f s' => exact id
 
 theorem step_eval_lambda (env : EnvId) (ps : List String) (ds : List Node) (body : Node) (pos : Pos) :
     PresA E b (eval ld (fuel+1) env (.lambda ps ds body pos)) (eval ld' (fuel+1) env (.lambda ps ds body pos)) := by
